@@ -131,10 +131,27 @@ def gen_cases(tier, rnd, prop, budget):
     sam = prop == "C04"
     def game(n, i):
         if sam or (prop in ("C07", "C08") and i % 3 == 2):
-            return G.sam_game(n, rnd), "sam"
+            v_ = G.sam_game(n, rnd)
+            tag_ = "sam"
+            if i % 5 == 3:
+                # a fixed cost at the empty coalition (v(∅) < 0): still superadditive and monotone non-increasing
+                v_ = list(v_)
+                v_[0] = Fraction(-rnd.randint(1, 3), rnd.choice([1, 4]))
+                if G.is_sa(v_, n) and G.is_mono_dec(v_, n):
+                    tag_ = "sam-v0"
+                else:
+                    v_[0] = Fraction(0)
+            if i % 5 == 4:
+                # tiny magnitude: the game times 2^-50 (exact): bounds are positively homogeneous, absolute tolerances are not
+                v_ = [x * Fraction(1, 2 ** 50) for x in v_]
+                tag_ = "sam-tiny"
+            return v_, tag_
         if prop in ("C03", "C08") and i % 4 == 3:
             # games of ANY class: the computers are defined on every table with minimal information
             return (G.arbitrary_game(n, rnd), "arb") if i % 8 == 3 else (G.undervalued_game(n, rnd), "undervalued")
+        if i % 7 == 6:
+            # tiny magnitude (an integer game times 2^-50, exact in float64)
+            return [x * Fraction(1, 2 ** 50) for x in G.sa_game(n, rnd, kind="int", neg_singletons=(i % 2 == 0))], "sa-tiny"
         kind = ["int", "dyadic", "offset", "big", "int", "offset"][i % 6]
         if prop in ("C07", "C08"):
             # positions 2 and 5 are SAM games here; the offset kind (huge stand-alone values, small increments: intervals that
